@@ -67,6 +67,58 @@ impl EngineModel {
                 && final(self).z@ == old(self).z@.insert((db as int, key@), zmembers(old(self).z@, db as int, key@).insert(member@, s)),
     { unimplemented!() }
 }
+/// the least / greatest member of a non-empty sorted set in (score, member bytes) order (the order itself is C04's skip-list subject)
+pub uninterp spec fn zmin(zm: ZM) -> Seq<u8>;
+pub uninterp spec fn zmax(zm: ZM) -> Seq<u8>;
+pub broadcast axiom fn axiom_zmin_member(zm: ZM)
+    ensures zm.dom().len() > 0 ==> zm.contains_key(#[trigger] zmin(zm));
+pub broadcast axiom fn axiom_zmax_member(zm: ZM)
+    ensures zm.dom().len() > 0 ==> zm.contains_key(#[trigger] zmax(zm));
+impl EngineModel {
+    /// ASSUMED CONTRACT for the two rank ranges ZPOPMIN / ZPOPMAX ask for: (0, 0) = the least member, (-1, -1) = the greatest
+    #[verifier::external_body]
+    pub fn zrange(&mut self, db: usize, key: &[u8], start: isize, stop: isize, rev: bool) -> (r: Result<Vec<(Vec<u8>, f64)>>)
+        ensures final(self).ds@ == old(self).ds@, final(self).ttl@ == old(self).ttl@, final(self).z@ == old(self).z@,
+            other_type(old(self).ds@, db as int, key@) ==> r is Err,
+            !other_type(old(self).ds@, db as int, key@) ==> r is Ok,
+            (!other_type(old(self).ds@, db as int, key@) && !rev && ((start == 0 && stop == 0) || (start == -1 && stop == -1))) ==> ({
+                let zm = zmembers(old(self).z@, db as int, key@);
+                let m = if start == 0 { zmin(zm) } else { zmax(zm) };
+                if zm.dom().len() == 0 { r->Ok_0@.len() == 0 } else { r->Ok_0@.len() == 1 && r->Ok_0@[0].0@ == m && r->Ok_0@[0].1 == zm[m] }
+            }),
+    { unimplemented!() }
+}
+/// `v.into_iter().next()` (RXPR site): the first element, if any
+#[verifier::external_body]
+pub fn verif_first(v: Vec<(Vec<u8>, f64)>) -> (r: Option<(Vec<u8>, f64)>)
+    ensures v@.len() == 0 ==> r is None, v@.len() > 0 ==> r == Some(v@[0]),
+{ unimplemented!() }
+/// ZPOPMIN / ZPOPMAX key n: the first n extreme members, one after the other (fewer if the set runs out); each pop is a ZREM
+pub open spec fn zpop_upto(m: EngineModel, db: int, k: Seq<u8>, n: int, least: bool) -> (Seq<(Seq<u8>, f64)>, DS, Map<(int, Seq<u8>), int>, ZS)
+    decreases n
+{
+    if n <= 0 { (Seq::empty(), m.ds@, m.ttl@, m.z@) } else {
+        let p = zpop_upto(m, db, k, n - 1, least);
+        let zm = zmembers(p.3, db, k);
+        if zm.dom().len() == 0 { p } else {
+            let x = if least { zmin(zm) } else { zmax(zm) };
+            if zm.remove(x).dom().len() > 0 { (p.0.push((x, zm[x])), p.1, p.2, p.3.insert((db, k), zm.remove(x))) }
+            else { (p.0.push((x, zm[x])), p.1.remove((db, k)), p.2.remove((db, k)), p.3.remove((db, k))) }
+        }
+    }
+}
+/// once the set has run out, asking for more pops changes nothing
+pub proof fn lemma_zpop_stable(m: EngineModel, db: int, k: Seq<u8>, a: int, b: int, least: bool)
+    requires 0 <= a <= b, zmembers(zpop_upto(m, db, k, a, least).3, db, k).dom().len() == 0,
+    ensures zpop_upto(m, db, k, b, least) == zpop_upto(m, db, k, a, least),
+    decreases b - a
+{
+    if a < b { lemma_zpop_stable(m, db, k, a, b - 1, least); }
+}
+/// the reply lists the popped members with their scores, in pop order: [m1, s1, m2, s2, ..]
+pub open spec fn zpop_reply(v: Seq<RespFrame>, popped: Seq<(Seq<u8>, f64)>) -> bool {
+    v.len() == 2 * popped.len() && forall|j: int| 0 <= j < popped.len() ==> bulk_reply(#[trigger] v[2 * j]) == Some(Some(popped[j].0)) && v[2 * j + 1] == score_text(popped[j].1)
+}
 /// the key holds a value that is not a sorted set
 pub open spec fn other_type(ds: DS, db: int, k: Seq<u8>) -> bool { ds_get(ds, db, k) matches Some(dv) && !(dv is ZSet) }
 /// ZREM key m1 ..: members removed left to right; the key disappears with its last member; non-bulk arguments are skipped
@@ -244,6 +296,136 @@ impl Server {
                         && final(self).storage.z@ == old(self).storage.z@.insert((db as int, k), zmembers(old(self).storage.z@, db as int, k).insert(m, s))
                 // a failure leaves everything as it was
                 &&& !(r matches Ok(f) && !(f is Error)) ==> final(self).storage.ds@ == old(self).storage.ds@ && final(self).storage.z@ == old(self).storage.z@
+            }),
+//@@ body
+//@@ end
+
+//@@ unit handle_zpopmin fn src/network/server.rs Server::handle_zpopmin
+//@@   rewrite R3
+//@@   params drop "&self" add "&mut self"
+//@@   rewrite RCALL parse "String::from_utf8_lossy(bytes)" verif_cow_parse
+//@@   rewrite RXPR "members.into_iter().next()" "verif_first(members)"
+//@@   rewrite RXPR "score.to_string()" "score"
+//@@   rewrite RT "RespFrame::from_string(" "verif_score_frame("
+//@@   rewrite RFOR 0 it
+//@@   loop 0
+//@@|     invariant_except_break
+//@@|         results@.len() == 2 * it.index@,
+//@@|     invariant
+//@@|         it.index@ <= count, arg(parts@, 1) == Some(key@), results@.len() % 2 == 0, results@.len() / 2 <= count,
+//@@|         2 <= parts@.len() <= 3, parts@.len() == 3 ==> num_arg::<usize>(parts@, 2) == Some(count), parts@.len() == 2 ==> count == 1,
+//@@|         other_type(old(self).storage.ds@, db as int, key@) ==> self.storage.ds@ == old(self).storage.ds@ && self.storage.ttl@ == old(self).storage.ttl@ && self.storage.z@ == old(self).storage.z@ && results@.len() == 0,
+//@@|         !other_type(old(self).storage.ds@, db as int, key@) ==> !other_type(self.storage.ds@, db as int, key@) && ({
+//@@|             let s = zpop_upto(old(self).storage, db as int, key@, (results@.len() / 2) as int, true);
+//@@|             self.storage.ds@ == s.1 && self.storage.ttl@ == s.2 && self.storage.z@ == s.3 && zpop_reply(results@, s.0) && s.0.len() == results@.len() / 2 }),
+//@@|     ensures
+//@@|         other_type(old(self).storage.ds@, db as int, key@) ==> count == 0,
+//@@|         !other_type(old(self).storage.ds@, db as int, key@) ==> (results@.len() / 2 == count || zmembers(self.storage.z@, db as int, key@).dom().len() == 0),
+//@@   at "if parts.len() < 2 || parts.len() > 3"
+//@@|     broadcast use {axiom_zmin_member, axiom_zmax_member};
+//@@   loopstart 0
+//@@|     let ghost n0 = (results@.len() / 2) as int; let ghost res0 = results@;
+//@@|     proof { reveal_with_fuel(zpop_upto, 2); }
+//@@   at "if self.storage.zrem(db, key, &member)?"
+//@@|     proof {
+//@@|         let zm = zmembers(self.storage.z@, db as int, key@);
+//@@|         assert(zm.dom().len() > 0);
+//@@|         axiom_zmin_member(zm); axiom_zmax_member(zm);
+//@@|         assert(zm.contains_key(member@));
+//@@|     }
+//@@   after "results.push(RespFrame::from_string(score.to_string()));"
+//@@|     proof {
+//@@|         let s1 = zpop_upto(old(self).storage, db as int, key@, n0 + 1, true);
+//@@|         assert(results@.len() == res0.len() + 2);
+//@@|         assert(results@.len() / 2 == n0 + 1);
+//@@|         assert forall|j: int| 0 <= j < s1.0.len() implies bulk_reply(#[trigger] results@[2 * j]) == Some(Some(s1.0[j].0)) && results@[2 * j + 1] == score_text(s1.0[j].1) by {
+//@@|             if j < n0 { assert(results@[2 * j] == res0[2 * j]); assert(results@[2 * j + 1] == res0[2 * j + 1]); }
+//@@|         }
+//@@|     }
+//@@   afterloop 0
+//@@|     proof {
+//@@|         if !other_type(old(self).storage.ds@, db as int, key@) && results@.len() / 2 != count {
+//@@|             lemma_zpop_stable(old(self).storage, db as int, key@, (results@.len() / 2) as int, count as int, true);
+//@@|         }
+//@@|     }
+    fn handle_zpopmin(&mut self, parts: &[RespFrame], db: usize) -> (r: Result<RespFrame>)
+        ensures
+            (parts@.len() < 2 || parts@.len() > 3 || arg(parts@, 1) is None || (parts@.len() == 3 && num_arg::<usize>(parts@, 2) is None)) ==> zrefused(r, *old(self), *final(self)),
+            (2 <= parts@.len() <= 3 && arg(parts@, 1) is Some && (parts@.len() == 3 ==> num_arg::<usize>(parts@, 2) is Some)) ==> ({
+                let k = arg(parts@, 1)->Some_0; let n = if parts@.len() == 3 { num_arg::<usize>(parts@, 2)->Some_0 as int } else { 1int };
+                if other_type(old(self).storage.ds@, db as int, k) {
+                    (n > 0 ==> !(r matches Ok(f) && !(f is Error))) && final(self).storage.ds@ == old(self).storage.ds@ && final(self).storage.z@ == old(self).storage.z@
+                } else {
+                    let s = zpop_upto(old(self).storage, db as int, k, n, true);
+                    // exactly min(n, cardinality) members leave the set, the extreme ones first; a count of 0 pops nothing
+                    r is Ok && final(self).storage.ds@ == s.1 && final(self).storage.ttl@ == s.2 && final(self).storage.z@ == s.3
+                    && (if s.0.len() == 0 { r->Ok_0 == RespFrame::Array(None) } else { r->Ok_0 matches RespFrame::Array(Some(v)) && zpop_reply(v@, s.0) })
+                }
+            }),
+//@@ body
+//@@ end
+
+//@@ unit handle_zpopmax fn src/network/server.rs Server::handle_zpopmax
+//@@   rewrite R3
+//@@   params drop "&self" add "&mut self"
+//@@   rewrite RCALL parse "String::from_utf8_lossy(bytes)" verif_cow_parse
+//@@   rewrite RXPR "members.into_iter().next()" "verif_first(members)"
+//@@   rewrite RXPR "score.to_string()" "score"
+//@@   rewrite RT "RespFrame::from_string(" "verif_score_frame("
+//@@   rewrite RFOR 0 it
+//@@   loop 0
+//@@|     invariant_except_break
+//@@|         results@.len() == 2 * it.index@,
+//@@|     invariant
+//@@|         it.index@ <= count, arg(parts@, 1) == Some(key@), results@.len() % 2 == 0, results@.len() / 2 <= count,
+//@@|         2 <= parts@.len() <= 3, parts@.len() == 3 ==> num_arg::<usize>(parts@, 2) == Some(count), parts@.len() == 2 ==> count == 1,
+//@@|         other_type(old(self).storage.ds@, db as int, key@) ==> self.storage.ds@ == old(self).storage.ds@ && self.storage.ttl@ == old(self).storage.ttl@ && self.storage.z@ == old(self).storage.z@ && results@.len() == 0,
+//@@|         !other_type(old(self).storage.ds@, db as int, key@) ==> !other_type(self.storage.ds@, db as int, key@) && ({
+//@@|             let s = zpop_upto(old(self).storage, db as int, key@, (results@.len() / 2) as int, false);
+//@@|             self.storage.ds@ == s.1 && self.storage.ttl@ == s.2 && self.storage.z@ == s.3 && zpop_reply(results@, s.0) && s.0.len() == results@.len() / 2 }),
+//@@|     ensures
+//@@|         other_type(old(self).storage.ds@, db as int, key@) ==> count == 0,
+//@@|         !other_type(old(self).storage.ds@, db as int, key@) ==> (results@.len() / 2 == count || zmembers(self.storage.z@, db as int, key@).dom().len() == 0),
+//@@   at "if parts.len() < 2 || parts.len() > 3"
+//@@|     broadcast use {axiom_zmin_member, axiom_zmax_member};
+//@@   loopstart 0
+//@@|     let ghost n0 = (results@.len() / 2) as int; let ghost res0 = results@;
+//@@|     proof { reveal_with_fuel(zpop_upto, 2); }
+//@@   at "if self.storage.zrem(db, key, &member)?"
+//@@|     proof {
+//@@|         let zm = zmembers(self.storage.z@, db as int, key@);
+//@@|         assert(zm.dom().len() > 0);
+//@@|         axiom_zmin_member(zm); axiom_zmax_member(zm);
+//@@|         assert(zm.contains_key(member@));
+//@@|     }
+//@@   after "results.push(RespFrame::from_string(score.to_string()));"
+//@@|     proof {
+//@@|         let s1 = zpop_upto(old(self).storage, db as int, key@, n0 + 1, false);
+//@@|         assert(results@.len() == res0.len() + 2);
+//@@|         assert(results@.len() / 2 == n0 + 1);
+//@@|         assert forall|j: int| 0 <= j < s1.0.len() implies bulk_reply(#[trigger] results@[2 * j]) == Some(Some(s1.0[j].0)) && results@[2 * j + 1] == score_text(s1.0[j].1) by {
+//@@|             if j < n0 { assert(results@[2 * j] == res0[2 * j]); assert(results@[2 * j + 1] == res0[2 * j + 1]); }
+//@@|         }
+//@@|     }
+//@@   afterloop 0
+//@@|     proof {
+//@@|         if !other_type(old(self).storage.ds@, db as int, key@) && results@.len() / 2 != count {
+//@@|             lemma_zpop_stable(old(self).storage, db as int, key@, (results@.len() / 2) as int, count as int, false);
+//@@|         }
+//@@|     }
+    fn handle_zpopmax(&mut self, parts: &[RespFrame], db: usize) -> (r: Result<RespFrame>)
+        ensures
+            (parts@.len() < 2 || parts@.len() > 3 || arg(parts@, 1) is None || (parts@.len() == 3 && num_arg::<usize>(parts@, 2) is None)) ==> zrefused(r, *old(self), *final(self)),
+            (2 <= parts@.len() <= 3 && arg(parts@, 1) is Some && (parts@.len() == 3 ==> num_arg::<usize>(parts@, 2) is Some)) ==> ({
+                let k = arg(parts@, 1)->Some_0; let n = if parts@.len() == 3 { num_arg::<usize>(parts@, 2)->Some_0 as int } else { 1int };
+                if other_type(old(self).storage.ds@, db as int, k) {
+                    (n > 0 ==> !(r matches Ok(f) && !(f is Error))) && final(self).storage.ds@ == old(self).storage.ds@ && final(self).storage.z@ == old(self).storage.z@
+                } else {
+                    let s = zpop_upto(old(self).storage, db as int, k, n, false);
+                    // exactly min(n, cardinality) members leave the set, the extreme ones first; a count of 0 pops nothing
+                    r is Ok && final(self).storage.ds@ == s.1 && final(self).storage.ttl@ == s.2 && final(self).storage.z@ == s.3
+                    && (if s.0.len() == 0 { r->Ok_0 == RespFrame::Array(None) } else { r->Ok_0 matches RespFrame::Array(Some(v)) && zpop_reply(v@, s.0) })
+                }
             }),
 //@@ body
 //@@ end
